@@ -518,6 +518,11 @@ func EncodeDatapoint(mName []byte, tags *TagsHolder, dp float64, timestamp uint3
 		log.Errorf("EncodeDatapoint: metric name is empty, orgid=%v", orgid)
 		return fmt.Errorf("metric name is empty")
 	}
+	if len(tags.GetEntries()) == 0 {
+		// a series is found through the tags trees of its tag keys only
+		log.Errorf("EncodeDatapoint: rejecting datapoint without tags for metric=%s, orgid=%v", mName, orgid)
+		return fmt.Errorf("datapoint has no tags")
+	}
 	if err := tags.checkTagKeys(); err != nil {
 		log.Errorf("EncodeDatapoint: rejecting datapoint for metric=%s, orgid=%v, err=%v", mName, orgid, err)
 		return err
